@@ -283,6 +283,56 @@ struct Session {
     n: i64,
 }
 
+/// every kind of value serde's data model has and JSON can carry without loss: integers of all widths
+/// (128-bit ones beyond the 64-bit range included), bool, char, Option, tuples, sequences, enums
+/// with and without data, nested maps
+#[derive(Clone, Debug, Serialize, Deserialize, PartialEq)]
+struct Wide {
+    id: u128,
+    neg: i128,
+    u: u64,
+    i: i64,
+    small: i8,
+    flag: bool,
+    ch: char,
+    opt: Option<u128>,
+    none: Option<String>,
+    pair: (u8, String),
+    list: Vec<u128>,
+    bytes: Vec<u8>,
+    kind: WideKind,
+    tagged: WideKind,
+    unit: (),
+    map: std::collections::BTreeMap<String, i128>,
+}
+#[derive(Clone, Debug, Serialize, Deserialize, PartialEq)]
+enum WideKind {
+    Plain,
+    Tuple(u64, i64),
+    Struct { a: u128, b: Option<bool> },
+}
+fn wide(text: &str, n: i64) -> Wide {
+    let big = ((n as u64 as u128) << 64) | 0x8000_0000_0000_0001;
+    Wide {
+        id: if n % 3 == 0 { u128::MAX } else if n % 3 == 1 { u64::MAX as u128 + 1 } else { big },
+        neg: if n % 2 == 0 { i128::MIN } else { i64::MIN as i128 - 1 - (n as i128).abs() },
+        u: u64::MAX - (n as u64 % 3),
+        i: n,
+        small: (n % 128) as i8,
+        flag: n % 2 == 0,
+        ch: text.chars().next().unwrap_or('\u{10FFFF}'),
+        opt: if n % 5 == 0 { None } else { Some(big) },
+        none: None,
+        pair: ((n % 256) as u8, text.chars().take(20).collect()),
+        list: vec![0, 1, u64::MAX as u128, u64::MAX as u128 + 1, big, u128::MAX],
+        bytes: text.bytes().take(40).collect(),
+        kind: WideKind::Plain,
+        tagged: if n % 2 == 0 { WideKind::Tuple(n as u64, n) } else { WideKind::Struct { a: big, b: if n % 4 == 1 { None } else { Some(true) } } },
+        unit: (),
+        map: [("min".to_string(), i128::MIN), ("max".to_string(), i128::MAX), (text.chars().take(12).collect(), n as i128)].into_iter().collect(),
+    }
+}
+
 #[derive(Clone, Debug, Serialize, Deserialize, PartialEq)]
 struct Kid {
     kid: String,
@@ -340,7 +390,7 @@ fn typed_case<B: Backend>(c: &TypedCase, acc: &mut Acc) -> R {
     let hm_footer = || (0..12i64).map(|i| (format!("f{i}"), format!("{}{i}", c.text.chars().take(8).collect::<String>()))).collect::<std::collections::HashMap<String, String>>();
     macro_rules! go {
         ($P:ty, $sk:expr, $uk:expr) => {
-            match c.shape % 6 {
+            match c.shape % 7 {
                 0 => typed_roundtrip::<B, $P, Json<serde_json::Value>, ()>(c, &$sk, &$uk, || Json(val.clone()), || (), |a, _| a.0 == val),
                 1 => typed_roundtrip::<B, $P, Json<serde_json::Value>, Json<serde_json::Value>>(c, &$sk, &$uk, || Json(val.clone()), || Json(fval.clone()), |a, f| a.0 == val && f.0 == fval),
                 2 => typed_roundtrip::<B, $P, RegisteredClaims, Json<Kid>>(c, &$sk, &$uk, || claims.clone(), || Json(Kid { kid: c.text.clone(), n: c.n }), |a, f| {
@@ -348,6 +398,7 @@ fn typed_case<B: Backend>(c: &TypedCase, acc: &mut Acc) -> R {
                     a.iss == b.iss && a.sub == b.sub && a.aud == b.aud && a.exp == b.exp && a.nbf == b.nbf && a.iat == b.iat && a.jti == b.jti && f.0 == Kid { kid: c.text.clone(), n: c.n }
                 }),
                 3 => typed_roundtrip::<B, $P, Json<serde_json::Value>, Vec<u8>>(c, &$sk, &$uk, || Json(val.clone()), || c.text.as_bytes().to_vec(), |a, f| a.0 == val && f == c.text.as_bytes()),
+                6 => typed_roundtrip::<B, $P, Json<Wide>, Json<Wide>>(c, &$sk, &$uk, || Json(wide(&c.text, c.n)), || Json(wide(&c.text, c.n.wrapping_add(1))), |a, f| a.0 == wide(&c.text, c.n) && f.0 == wide(&c.text, c.n.wrapping_add(1))),
                 5 => typed_roundtrip::<B, $P, Json<Session>, Json<Kid>>(c, &$sk, &$uk, || Json(Session { registered: full_claims.clone(), role: c.text.clone(), n: c.n }), || Json(Kid { kid: c.text.clone(), n: c.n }), |a, _| {
                     let (x, y) = (&a.0.registered, &full_claims);
                     a.0.role == c.text && a.0.n == c.n && x.iss == y.iss && x.sub == y.sub && x.aud == y.aud && x.exp == y.exp && x.nbf == y.nbf && x.iat == y.iat && x.jti == y.jti
@@ -368,11 +419,11 @@ fn typed_case<B: Backend>(c: &TypedCase, acc: &mut Acc) -> R {
     };
     r?;
     acc.eval();
-    acc.nt(hash_of(&(c.public, &c.key, c.shape % 6, &c.text, c.n)));
+    acc.nt(hash_of(&(c.public, &c.key, c.shape % 7, &c.text, c.n)));
     if c.text.len() > 8000 {
         acc.class("typed:text>8000-bytes");
     }
-    acc.class(["typed:Json+unit-footer", "typed:Json+Json-footer", "typed:RegisteredClaims+Json<struct>-footer", "typed:Json+bytes-footer", "typed:Json<HashMap>+Json<HashMap>-footer", "typed:Json<struct with flattened RegisteredClaims>"][(c.shape % 6) as usize]);
+    acc.class(["typed:Json+unit-footer", "typed:Json+Json-footer", "typed:RegisteredClaims+Json<struct>-footer", "typed:Json+bytes-footer", "typed:Json<HashMap>+Json<HashMap>-footer", "typed:Json<struct with flattened RegisteredClaims>", "typed:Json<every serde value kind incl. 128-bit integers> payload and footer"][(c.shape % 7) as usize]);
     Ok(())
 }
 
@@ -387,7 +438,7 @@ fn typed_subs_for<B: Backend>(out: &mut Vec<SubCheck>) {
         4,
         cases,
         |_t| {
-            (any::<bool>(), gen_::key_seed(), 0u8..6, prop_oneof![
+            (any::<bool>(), gen_::key_seed(), 0u8..7, prop_oneof![
                 4 => Just(String::new()).boxed(),
                 8 => "\\PC{0,30}".boxed(),
                 4 => any::<String>().boxed(),
